@@ -858,17 +858,41 @@ def check_C10(ck):
         windows = list(range(1, 9)) + [12, 16, 20] if not thorough else list(range(1, 21))
         if tag == "g2" and not thorough:
             windows = [1, 2, 3, 4, 5, 7, 11]
+        def small_digit_scalar(w, maxd=12):
+            """scalar < 2^255 whose every window digit (top-aligned windows of width w) is < 2^maxd, so that the
+            bucket reduction (cost ~ max digit per window) stays cheap for large windows"""
+            k = 0
+            lo = 256 - w
+            while lo > -w:
+                base = max(lo, 0)
+                width = min(maxd, (lo + w) - base)
+                if width > 0:
+                    k |= rng.randrange(1 << width) << base
+                lo -= w
+            return k % (1 << 255)
         for w in windows:
-            shapes = [(0, 0), (1, 1), (2, 2), (3, 5), (5, 3), (7, 7)] if w <= 8 else [(3, 3)]
+            big = w > 10
+            shapes = [(0, 0), (1, 1), (2, 2), (3, 5), (5, 3), (7, 7)] if w <= 8 else [(3, 3), (2, 4)]
             for (np_, nk) in shapes:
                 ps = [rng.choice(pool) for _ in range(np_)]
-                ks = [rng.choice(scal)[1] for _ in range(nk)]
+                ks = [small_digit_scalar(w) if big else rng.choice(scal)[1] for _ in range(nk)]
                 n = min(np_, nk)
                 add_case("pip/w%d/n%d" % (w, n), "pip %x" % w, ps, ks, g.A(msm(ps[:n], ks[:n])))
             # single bit at positions around word boundaries: walks the window across limbs
-            for bit in ([0, 1, 62, 63, 64, 65, 127, 128, 191, 192, 193, 253, 254] if not thorough else range(0, 255)):
+            bits = [0, 1, 62, 63, 64, 65, 127, 128, 191, 192, 193, 253, 254] if not thorough else list(range(0, 255, 1 if w <= 4 else 5)) + [63, 64, 127, 128, 191, 192]
+            if big:
+                # keep only positions whose digit is small (offset inside its window <= 13), plus one expensive one
+                def off(bit):
+                    lo = 256 - w
+                    while lo > bit:
+                        lo -= w
+                    return bit - max(lo, 0)
+                cheap = [b for b in range(255) if off(b) <= 13]
+                bits = [b for b in bits if b in cheap][:8] + ([cheap[-1]] if cheap else []) + ([191] if w <= 16 else [])
+            for bit in bits:
                 P = pool[0]
-                add_case("pip/w%d/single-bit" % w, "pip %x" % w, [P, pool[1]], [1 << bit, (1 << 255) - 1 - (1 << bit)], g.A(msm([P, pool[1]], [1 << bit, (1 << 255) - 1 - (1 << bit)])))
+                k2 = small_digit_scalar(w) if big else (1 << 255) - 1 - (1 << bit)
+                add_case("pip/w%d/single-bit" % w, "pip %x" % w, [P, pool[1]], [1 << bit, k2], g.A(msm([P, pool[1]], [1 << bit, k2])))
             # scalar with top bit set -> the assert fires
             add_case("pip/w%d/top-bit-panic" % w, "pip %x" % w, [pool[0]], [1 << 255], "PANIC")
         # default entry point around the window-selection boundaries
